@@ -12,6 +12,14 @@ from ir import Facts
 from extract import get_facts
 p, _ = get_facts()
 F = Facts(p)
+# the same environment as in `check`: every rule module loaded (r_ef installs the default inliner of small helpers),
+# powers of two of the crate's constants registered
+import importlib
+for _f in sorted(os.listdir(os.path.join(os.path.dirname(os.path.dirname(os.path.abspath(__file__))), "rules"))):
+    if _f.startswith("r_") and _f.endswith(".py"):
+        importlib.import_module(_f[:-3])
+import r_const
+r_const.register_pow2(F)
 REASONS = {
     "ef-scan": "index_of additionally rejects values above u, stops at the end of the high bits and tests for equality/overshoot; succ_unchecked relies on its caller's contract (read and confirmed)",
     "select-small": "zero-selecting counterpart: zeros before position p are p - ones, so counters are compared as block position minus (upper ones + absolute), upper ranks as (i << 32) - ones, and a linear partition point replaces the binary one (read and confirmed)",
